@@ -50,6 +50,7 @@ var (
 	reFunc = regexp.MustCompile(`^func\s+([A-Za-z0-9_.]+)\s*\(([^)]*)\)\s*(?:\(([^)]*)\))?\s*(.*)$`)
 	reTag  = regexp.MustCompile(`\[(C[0-9]{2,3})\]`)
 	reLoop = regexp.MustCompile(`^loop\s+([0-9]+)`)
+	reAt   = regexp.MustCompile(`^at\s+call\s+([A-Za-z0-9_./#]+)`)
 	reCall = regexp.MustCompile(`^call\s+([A-Za-z0-9_.]+)#([0-9]+)(?:\s+loop\s+([0-9]+))?`)
 )
 
@@ -171,6 +172,13 @@ func parseContractFile(path, pkgDir string) ([]*FuncContract, error) {
 			}
 			continue
 		}
+		if m := reAt.FindStringSubmatch(line); m != nil {
+			curLoop = "@" + m[1]
+			if cur.Loops[curLoop] == nil {
+				cur.Loops[curLoop] = &LoopSpec{}
+			}
+			continue
+		}
 		if m := reCall.FindStringSubmatch(line); m != nil {
 			lp := m[3]
 			if lp == "" {
@@ -188,6 +196,9 @@ func parseContractFile(path, pkgDir string) ([]*FuncContract, error) {
 			kw, rest = line[:i], strings.TrimSpace(line[i:])
 		}
 		switch kw {
+		case "assert":
+			kw = "invariant" // site assertions are stored like invariants of the pseudo-loop "@<site>"
+			pendKind, pend, pendLine = kw, rest, ln
 		case "requires", "ensures", "invariant", "decreases":
 			if kw == "requires" || kw == "ensures" {
 				curLoop = ""
